@@ -139,6 +139,21 @@ CHECKS = {
              "generated (their std::set order is a libstdc++ artefact); known finding F12 (empty held range delays a covering request)",
         technique="Lean 4 inductive invariant over operation histories + op-sequence differential correspondence with real parked threads",
         design="§5 C18"),
+    "C19": dict(
+        text="Lean 4 theorems about a specification automaton for ObjectCache<K,V*> that every single-vCPU history of acquire/release "
+             "calls and returns, constructor begin/end and destructor calls must be accepted by: a destructor call is accepted only for the "
+             "key's live object with no reference held and - unless a recycling release is in progress - only after the lifespan since the "
+             "last release has passed; a constructor never starts while another one runs for the key or while the key has a live object; a "
+             "successful acquire returns the key's live object (acquirers share it); a recycling release returns only when no other holder "
+             "remains; by induction over all accepted histories a key with any held reference has a live object and no constructor running. "
+             "Tied to the code by generated programs on the real cache with its expiry timer driven by the virtual clock; an independent "
+             "reference-count oracle supplies failing programs",
+        note="trusted: Lean kernel + 3 standard axioms; single vCPU; ObjectCache<int,Obj*> only - ObjectCacheV2 and the intrusive-list "
+             "variant are not covered; the size limit (num_limit) is not exercised; a program-level deadlock (a holder re-acquiring a key "
+             "while another thread's recycling release waits for it) is not counted as a violation; failure cooldown is exercised with "
+             "cooldown 0 only",
+        technique="Lean 4 invariants over a specification automaton (refinement at API level) + deterministic simulation of the real runtime",
+        design="§5 C19"),
     "C20": dict(
         text="Lean 4 theorems for every path string and base: whatever PathCat forwards is base++path and its component walk never "
              "goes above the base (no escape); every path whose prefixes all stay inside and that fits the buffer is forwarded (legal "
